@@ -242,6 +242,40 @@ def worker(task):
     return out
 
 
+def family():
+    """Enumerated interplay of DISTINCT / GROUP BY / HAVING / ORDER BY / LIMIT on single tables (ASTs + SQL): every select
+    list made of grouping keys and aggregates (keys omitted, repeated, reordered), with and without DISTINCT."""
+    out = []
+    col = lambda t, c: ('col', t, c, 'I')
+    cnt = ('agg', 'count*', None)
+    for t, cols in (('u', ['x', 'y']), ('t', ['b', 'c', 'a'])):
+        keysets = [[cols[0]], [cols[0], cols[1]], [cols[1], cols[0]]] + ([cols[:3]] if len(cols) > 2 else [])
+        for ks in keysets:
+            gk = [col(t, c) for c in ks]
+            sels = [[gk[0]], [gk[-1]], list(gk), list(reversed(gk)), [gk[0], cnt], [cnt], [gk[-1], ('agg', 'sum', col(t, cols[1]))], [gk[0], ('agg', 'countd', col(t, cols[-1]))]]
+            for sel in sels:
+                for distinct in (False, True):
+                    for having in (None, ('>', cnt, ('lit', 1, 'I'))):
+                        for order in (None, [(sel[0], False)], [(sel[-1], True)]):
+                            for lim, off in ((None, None), (1, 1)):
+                                if lim is not None and order is None:
+                                    continue
+                                q = {'from': [('table', t, t)], 'where': None, 'select': list(sel), 'group': list(gk), 'having': having, 'distinct': distinct,
+                                     'order': order, 'limit': lim, 'offset': off}
+                                out.append({'sql': corpus.q_sql(q), 'ast': q})
+        # DISTINCT without GROUP BY, over duplicates and NULLs
+        for sel in ([col(t, cols[0])], [col(t, cols[0]), col(t, cols[1])], [col(t, cols[1]), col(t, cols[1])]):
+            for order in (None, [(sel[0], True)]):
+                q = {'from': [('table', t, t)], 'where': None, 'select': list(sel), 'group': None, 'having': None, 'distinct': True, 'order': order, 'limit': None, 'offset': None}
+                out.append({'sql': corpus.q_sql(q), 'ast': q})
+    seen, uniq = set(), []
+    for g in out:
+        if g['sql'] not in seen:
+            seen.add(g['sql'])
+            uniq.append(g)
+    return uniq
+
+
 def order_cols(q):
     if not q.get('order'):
         return []
@@ -250,7 +284,9 @@ def order_cols(q):
 
 def run(rep, thorough, only=None):
     K = 3 if thorough else 2
-    gen = corpus.generated(600 if thorough else 150, seed() + 1000)
+    gen = corpus.generated(600 if thorough else 150, seed() + 1000) + corpus.generated(300 if thorough else 100, seed() + 2000, rich=True)
+    fam = family()
+    gen = gen + fam
     if only:
         gen = [g for g in gen if only in g['sql']]
     # ORDER BY <integer literal> is an output-column ordinal in SQL and a constant in the generator's AST: not compared
